@@ -105,7 +105,106 @@ def project(lines, proj):
             out.append((l,))
     return [' '.join(str(x) for x in o) for o in out]
 
-PROJS = ('frames', 'frames+rst', 'timing', 'wire')
+# ---- semantic projections: what each property's theorems depend on
+FAM = {
+ 'ssd': dict(plane={0x24, 0x26}, refresh={0x20}, busy={0x12, 0x20, 0x46, 0x47}, addr={0x11, 0x44, 0x45, 0x4e, 0x4f, 0x12, 0x46, 0x47},
+             sleep={0x10, 0x07}, lut={0x32}, geom={0x01, 0x44, 0x45}, ctl={0x22}),
+ 'uc': dict(plane={0x10, 0x13, 0x14, 0x15}, refresh={0x12, 0x16}, busy={0x02, 0x04, 0x12}, addr={0x90, 0x91, 0x92, 0x61},
+            sleep={0x07}, lut=set(range(0x20, 0x2b)), geom={0x61, 0x90}, ctl={0x02, 0x04}),
+}
+
+def frames_of(lines):
+    """frames projection lines -> list of events: ('F', cmd, [data lines]) | ('E', line)"""
+    ev = []
+    cur = None
+    for l in project(lines, 'frames+rst') if True else []:
+        t = l.split(' ')
+        if t[0] in ('C', 'CL'):
+            cur = ['F', int(t[1], 16), []]
+            ev.append(cur)
+        elif t[0] == 'Z':
+            if cur is not None:
+                cur[2].append(l)
+            else:
+                ev.append(['E', l])
+        else:
+            ev.append(['E', l])
+            if t[0] in ('R0', 'R1', 'N'):
+                cur = None
+    return ev
+
+def zlen(zs):
+    return sum(int(z.split(' ')[1]) for z in zs)
+
+def sem_project(lines, kind, fam):
+    F = FAM[fam]
+    out = []
+    if kind == 'busy':
+        # polls and delays verbatim, resets, and the commands the busy discipline is about
+        for l in project(lines, 'timing'):
+            t = l.split(' ')
+            if t[0] in ('P', 'T', 'R0', 'R1', 'N', 'PN', 'X0', 'X1', 'Xu'):
+                out.append(l)
+            elif t[0] in ('C', 'CL'):
+                c = int(t[1], 16)
+                if c in F['plane'] or c in F['refresh'] or c in F['busy'] or c in F['ctl']:
+                    out.append('C %02x' % c)
+                    keep = c in F['ctl']
+                else:
+                    keep = False
+            elif t[0] == 'Z':
+                if out and out[-1].startswith('C ') and int(out[-1][2:], 16) in F['ctl']:
+                    out.append(l)
+        return out
+    for e in frames_of(lines):
+        if e[0] == 'E':
+            t = e[1].split(' ')
+            if t[0] in ('R0', 'R1', 'N') and kind in ('addr', 'power'):
+                out.append(e[1])
+            elif t[0] in ('X0', 'X1', 'Xu', 'U', 'S'):
+                out.append(e[1])
+            elif t[0] == 'Z' and kind in ('addr', 'cmdlen'):
+                out.append('stray ' + t[1])
+            continue
+        _, c, zs = e
+        if kind == 'addr':
+            if c in F['addr']:
+                out.append('C %02x' % c); out += zs
+            elif c in F['plane']:
+                out.append('RAM %02x %d' % (c, zlen(zs)))
+        elif kind == 'power':
+            if c in F['sleep'] or c in F['ctl']:
+                out.append('C %02x' % c); out += zs
+            elif c in F['plane']:
+                pass
+            else:
+                out.append('C %02x' % c)
+        elif kind == 'cmdlen':
+            out.append('C %02x %d' % (c, zlen(zs)))
+            if c in F['geom'] or c in F['sleep']:
+                out += zs
+        elif kind == 'lut':
+            if c in F['lut'] and not (c in F['refresh']):
+                out.append('C %02x' % c); out += zs
+    return out
+
+def rst_project(lines):
+    """RST edges, the delay that follows each edge, and where SPI traffic happens relative to them"""
+    out = []
+    for l in project(lines, 'timing'):
+        t = l.split(' ')
+        if t[0] in ('R0', 'R1', 'N'):
+            out.append(l)
+        elif t[0] == 'T':
+            if out and out[-1].split(' ')[0] in ('R0', 'R1'):
+                out.append(l)
+        elif t[0] in ('C', 'CL', 'Z', 'X0', 'X1', 'Xu', 'U', 'S', 'W', 'WX'):
+            if not out or out[-1] != 'SPI':
+                out.append('SPI')
+    return out
+
+SEM = ('addr', 'busy', 'power', 'cmdlen', 'lut', 'rst')
+PROJS = ('frames', 'frames+rst', 'timing', 'wire') + SEM
 
 class Mismatch:
     def __init__(self, panel, feat, suite, cid, opidx, opname, projs, real, model, rres, mres, script):
@@ -147,8 +246,15 @@ def compare(panel, feat, suite, script_text, real_txt, model_txt):
             if rop[2] == mop[2] and rop[3] == mop[3]:
                 continue
             bad = []
+            fam = BY_NAME[panel].family if panel in BY_NAME else 'uc'
             for pj in PROJS:
-                if project(rop[2], pj) != project(mop[2], pj) or rop[3] != mop[3]:
+                if pj == 'rst':
+                    differs = rst_project(rop[2]) != rst_project(mop[2])
+                elif pj in SEM:
+                    differs = sem_project(rop[2], pj, fam) != sem_project(mop[2], pj, fam)
+                else:
+                    differs = project(rop[2], pj) != project(mop[2], pj)
+                if differs or rop[3] != mop[3]:
                     bad.append(pj)
             if not bad:
                 continue
